@@ -13,6 +13,12 @@
 //!     of the statement is put through (1)+(2) itself (`parse(emit(r2)) == r2`, emit does
 //!     not panic, bytes independent of the buffer).
 //!
+//! Variable-length parts are driven to the limits of their own format (and just below / just
+//! above an alignment): DHCP options of 0,1,2,253,254,255 data octets, NDISC options at
+//! 8k-1 / 8k / 8k+1 and at 255 units, TCP options filling the 40-octet option space, IPv6
+//! options around 8-octet alignment and at 254/255, DNS labels of 62/63 and names of 254/255
+//! octets, ICMPv6 error payloads around the minimum-MTU cut.
+//!
 //! The proviso of the statement ("provided its variable-length parts fit what the protocol
 //! permits") lives in the generators (`chunk`) and in `legal` (for parsed values), never in
 //! a loosened comparison; the few places where the comparison itself is lenient are
@@ -997,6 +1003,7 @@ fn doc_type<T: Rt>(m: &mut serde_json::Map<String, Value>) {
 pub fn run(tier: Tier) -> i32 {
     let mut rep = Report::new("C06", tier);
     rep.assumptions.push("domain = cross products of per-field boundary alphabets inside the documented ranges (per type: coverage.domains); values outside what the protocol permits (the statement's proviso) are not generated; no sampling, no randomness".into());
+    rep.assumptions.push("variable-length parts are enumerated at the limits of their own format (DHCP option data 0,1,2,253,254,255; NDISC option units at 8k-1/8k/8k+1 and 255 units; TCP options up to exactly 40 octets; IPv6 options around 8-octet alignment and 254/255 octets; DNS labels 62/63 and names 254/255 octets); values beyond those limits are outside the proviso and not generated".into());
     rep.assumptions.push("declared length = Repr::buffer_len(); for types whose API keeps the payload outside the Repr (Ipv4Repr, Ipv6Repr, UdpRepr, SixlowpanUdpNhcRepr, Ipv6ExtHeaderRepr, MldAddressRecordRepr, MldRepr::ReportRecordReprs) = header length + payload, the payload being written by the harness the way the interface code does".into());
     rep.assumptions.push("clause 3 (mutants) parses with ChecksumCapabilities::ignored(), then re-emits/re-parses the obtained value with default (verifying) capabilities; a panic of a parser on a mutated packet is counted (mutant_parse_panics) but is property C07's subject, not reported here".into());
     rep.assumptions.push("distinct emitted byte strings are counted through a 64-bit SipHash of (type, bytes)".into());
